@@ -79,6 +79,17 @@ def parseWord (w : String) : Option Uuid.Word :=
     | _ => none
   | _ => none
 
+/-- the `genrun` / `genrunx` answer -/
+def genrunAns (c hw s ns n ev st : String) : String :=
+      match natArg c, parseHex hw, intArg s, natArg ns, natArg n, natArg ev, natArg st with
+      | some c, some hw, some s, some ns, some n, some ev, some st =>
+        let us := Uuid.genRun hw c (Uuid.steppedReadings s ns ev st n)
+        let verdict := match Uuid.firstDup us with
+          | some (i, j) => s!"dup:{i},{j}"
+          | none => "distinct"
+        s!"{verdict} first={toHex (us.headD [])} last={toHex (us.getLastD [])} ctr={Uuid.genCtr c n}"
+      | _, _, _, _, _, _, _ => "bad-op"
+
 /-- ops:
   parse <hex of the string bytes>      → hex uuid | err
   print <hex16>                        → canonical string
@@ -281,16 +292,8 @@ def step (_ : Unit) (ws : List String) : Unit × String :=
   | ["burst", c, g, n, _, _] => match natArg c, natArg g, natArg n with
       | some c, some g, some n => s!"ok ctr={Uuid.genCtr c (g * n)}"
       | _, _, _ => "bad-op"
-  | [op, c, hw, s, ns, n, ev, st] =>
-      if op != "genrun" && op != "genrunx" then "bad-op" else
-      match natArg c, parseHex hw, intArg s, natArg ns, natArg n, natArg ev, natArg st with
-      | some c, some hw, some s, some ns, some n, some ev, some st =>
-        let us := Uuid.genRun hw c (Uuid.steppedReadings s ns ev st n)
-        let verdict := match Uuid.firstDup us with
-          | some (i, j) => s!"dup:{i},{j}"
-          | none => "distinct"
-        s!"{verdict} first={toHex (us.headD [])} last={toHex (us.getLastD [])} ctr={Uuid.genCtr c n}"
-      | _, _, _, _, _, _, _ => "bad-op"
+  | ["genrun", c, hw, s, ns, n, ev, st] => genrunAns c hw s ns n ev st
+  | ["genrunx", c, hw, s, ns, n, ev, st] => genrunAns c hw s ns n ev st
   | op :: c :: hw :: sec :: ns :: words =>
       -- sched: at most 16384 calls return ⇒ distinct (C19_conc_unique_upto_16384); schedx: longer schedules
       -- (C19_conc_dup_iff / C19_conc_dup_descheduled say which repeat), model vs code
